@@ -28,6 +28,7 @@ IR (plain JSON):
 
 from __future__ import annotations
 
+import math
 from fractions import Fraction
 
 from vf import core
@@ -193,10 +194,12 @@ FLAGS = (
                                # flag examined in step 4 of the next time step
     "termwhen_before_compose", # terminate-when conditions examined before the compose block runs
     "comp_inv_after_sub",      # scenario invariants also checked when a sub-scenario returns
+    "limit_counts_suspended_time",  # `terminate after` counts the steps a suspended scenario missed
 )
 
 #: defect models (switches reproducing a known deviation of the implementation)
-DEFECTS = ("ti_inv", "sub_reqlike", "ti_flags", "ti_return2", "mon_term_sub", "sched_consumed")
+DEFECTS = ("ti_inv", "sub_reqlike", "ti_flags", "ti_return2", "mon_term_sub", "sched_consumed",
+           "comp_zombie", "comp_onelist")
 
 
 class Unjudged(Exception):
@@ -237,7 +240,7 @@ class Inst:
 
 
 class Scen:
-    __slots__ = ("dfn", "parent", "running", "elapsed", "limit", "block", "inst", "monitors",
+    __slots__ = ("dfn", "parent", "running", "elapsed", "limit", "block", "inst", "monitors", "t0",
                  "children", "term_when", "term_sim_when", "records", "finals", "initials",
                  "is_top", "dyn")
 
@@ -246,6 +249,7 @@ class Scen:
         self.parent = parent
         self.running = False
         self.elapsed = 0
+        self.t0 = None
         self.limit = None
         self.block = None
         self.inst = Inst(dfn, "scen", self)
@@ -278,6 +282,7 @@ class Machine:
         self.schedule = schedule
         self.maxSteps = maxSteps
         self.dt = Fraction(timestep)
+        self.dt_raw = timestep
         self.flags = dict(flags or {})
         self.defects = dict(defects or {})
         self.ti_flags = ti_flags or {}
@@ -319,8 +324,22 @@ class Machine:
         return (not v) if neg else v
 
     def steps_of(self, n, unit):
-        """Duration as a number of steps (exact)."""
-        return Fraction(n) if unit == "steps" else Fraction(n) / self.dt
+        """Duration as a number of steps (exact).  A duration in seconds is reached at the
+        first step at which the elapsed time is >= the duration ("after the given amount of
+        time").  Numbers are judged only when reading them as the decimals written in the
+        program and reading them as the binary floats they become give the same step."""
+        if unit == "steps":
+            return Fraction(n)
+        flt = Fraction(n) / self.dt
+        if isinstance(self.dt_raw, float) or isinstance(n, float):
+            def dec_of(x):
+                return Fraction(repr(x)) if isinstance(x, float) else Fraction(x)
+
+            dec = dec_of(n) / dec_of(self.dt_raw)
+            if math.ceil(dec) != math.ceil(flt):
+                raise Unjudged("duration/timestep differs between decimal and binary reading")
+            return dec
+        return flt
 
     def check_guards(self, inst, pre):
         d = inst.dfn
@@ -434,7 +453,17 @@ class Machine:
                             raise Reject("require")
                     else:
                         self.log.append(("rec", self.t, s[1]))
-        if S.limit is not None and S.elapsed >= S.limit:
+        hit = S.limit is not None and S.elapsed >= S.limit
+        if S.limit is not None and S.t0 is not None:
+            # a scenario that was suspended (its `do` pre-empted by an interrupt handler) has
+            # executed fewer steps than have passed since it started: the reference does not
+            # say which of the two `terminate after` counts
+            hit2 = self.t - S.t0 >= S.limit
+            if hit2 != hit and self.flag("limit_counts_suspended_time"):
+                hit = hit2
+        if S.t0 is None:
+            S.t0 = self.t
+        if hit:
             self.features.add("term-after-hit")
             self.stop_scenario(S)
             return "stopped"
@@ -507,7 +536,14 @@ class Machine:
             if f[2] is not None:
                 self.abandon_block(f[2])
         elif k == "dosc":
-            for S in f[2]:
+            for S in (f[2] or ()):
+                if S.running:
+                    self.features.add("sub-scenario-abandoned")
+                if self.defects.get("comp_zombie"):
+                    # defect model: sub-scenarios under an abandoned block are not stopped;
+                    # they are never stepped again but stay registered with their parent
+                    # (monitors keep running) until its next `do` replaces the list
+                    continue
                 self.stop_scenario(S)
 
     def abandon_block(self, block):
@@ -761,6 +797,22 @@ class Machine:
         self.check_guards(inst, False)  # the invoker resumes after the sub-behaviour
         return None
 
+    def dosc_frames(self, S):
+        """All `do` frames alive in the compose block of scenario S (also suspended ones)."""
+        out = []
+
+        def walk(block):
+            for g in block or ():
+                if g[0] == "dosc":
+                    out.append(g)
+                elif g[0] == "try":
+                    walk(g[1])
+                    for h in g[2]:
+                        walk(h[2])
+
+        walk(S.block)
+        return out
+
     def run_dosc(self, f, block, inst, ctx):
         """`do S1(), S2() [for/until]` in a compose block:
         f = ["dosc", spec, subs, names, pending]."""
@@ -773,31 +825,47 @@ class Machine:
                     self.stop_scenario(self.start_scenario(self.scens[n], S))
             block.pop()
             return None
+        # defect model comp_onelist: the implementation keeps ONE list of running sub-scenarios
+        # per scenario, replaced by every `do`; a `do` suspended under a pre-empted block then
+        # steps / waits for whatever that list holds when it is resumed
+        one = self.defects.get("comp_onelist")
         if first:
+            if one:
+                S.children = []
             f[2] = [self.start_scenario(self.scens[n], S) for n in f[3]]
             self.features.add("sub-scenario")
             if len(f[3]) > 1:
                 self.features.add("parallel-do")
+            if any(g is not f and g[0] == "dosc" and g[2] for g in self.dosc_frames(S)):
+                self.features.add("do-while-another-do-suspended")
         else:
-            f[2] = [x for x in f[2] if x.running]
+            if one:
+                S.children = [x for x in S.children if x.running]
+            else:
+                f[2] = [x for x in f[2] if x.running]
             if spec is not None and self.spec_holds(spec):
                 self.features.add("do-limit-hit")
                 for x in f[2]:
-                    self.stop_scenario(x)
+                    if x.running:
+                        self.stop_scenario(x)
                 block.pop()
                 if self.flag("comp_inv_after_sub") if inst.dfn.get("inv") else False:
                     self.check_guards(inst, False)
                 return None
+        lst = list(S.children) if one else f[2]
         still = []
-        for x in f[2]:
+        for x in lst:
             r = self.step_scenario(x)
             if r == ENDSIM:
-                if len(f[2]) > 1:
+                if len(lst) > 1:
                     raise Unjudged("terminate simulation under a parallel do")
                 return ("yield", ENDSIM)
             if r == "running":
                 still.append(x)
-        f[2] = still
+        if one:
+            S.children = still
+        else:
+            f[2] = still
         if still:
             return ("yield", WAIT)
         block.pop()
